@@ -168,6 +168,8 @@ macro_rules! bind_lite {
 // "Lite" variants for the Miri batch (C14.ub_free): same executors, operation
 // lists cut down to a few KiB of hashing per run.
 bind_lite!(C03Lite, "c03l", gen, |s| lite::c03(s, false));
+// one call of 2^32 bytes or more (thorough tier of C03)
+bind_lite!(C03Huge, "c03huge", gen, gen::generate_c03_huge);
 bind_lite!(C12Lite, "c12l", gen, |s| lite::c03(s, true));
 bind_lite!(C11Lite, "c11l", obj, |s| lite::c11(s, false));
 bind_lite!(C15Lite, "c15l", obj, |s| lite::c11(s, true));
@@ -276,7 +278,7 @@ fn dump_cmd<S: Scenario>(scn: &S, args: &[String]) -> i32 {
         ("ops", J::Arr(ops.iter().map(|o| scn.op_to_json(o)).collect())),
     ];
     if args.iter().any(|a| a == "--exec") {
-        let out = scn.execute(&ops, true);
+        let out = scn::hermetic(scn, &ops, true);
         fields.push(("digest_portable", J::Str(format!("{:016x}", out.digest_portable))));
         fields.push(("digest_std", J::Str(format!("{:016x}", out.digest_std))));
         fields.push(("log", J::Arr(out.lines.iter().map(|l| J::Str(l.clone())).collect())));
@@ -299,7 +301,7 @@ fn replay_cmd(path: &str) -> i32 {
     }
     let tag = doc.gs("scenario").unwrap_or("").to_string();
     let r = match tag.as_str() {
-        "c03" | "c03l" => scn::replay(&C03Scn, &doc),
+        "c03" | "c03l" | "c03huge" => scn::replay(&C03Scn, &doc),
         "c12" | "c12l" => scn::replay(&C12Scn, &doc),
         "c11" | "c11l" => scn::replay(&C11Scn, &doc),
         "c15" | "c15l" => scn::replay(&C15Scn, &doc),
@@ -345,6 +347,7 @@ fn main() {
             Some("c15") => run_cmd(&C15Scn, &args),
             Some("c17") => run_cmd(&C17Scn, &args),
             Some("c03l") => run_cmd(&C03Lite, &args),
+            Some("c03huge") => run_cmd(&C03Huge, &args),
             Some("c12l") => run_cmd(&C12Lite, &args),
             Some("c11l") => run_cmd(&C11Lite, &args),
             Some("c15l") => run_cmd(&C15Lite, &args),
@@ -365,6 +368,7 @@ fn main() {
             Some("c15") => dump_cmd(&C15Scn, &args),
             Some("c17") => dump_cmd(&C17Scn, &args),
             Some("c03l") => dump_cmd(&C03Lite, &args),
+            Some("c03huge") => dump_cmd(&C03Huge, &args),
             Some("c12l") => dump_cmd(&C12Lite, &args),
             Some("c11l") => dump_cmd(&C11Lite, &args),
             Some("c15l") => dump_cmd(&C15Lite, &args),
